@@ -1,4 +1,5 @@
 import SonicModel.Impl.Skip
+import SonicModel.Lemmas.ImplFuel
 namespace Sonic
 open Gen Impl
 
